@@ -3,6 +3,7 @@ package hsim
 import (
 	"fmt"
 
+	"github.com/aukilabs/hagall-common/messages/hagallpb"
 	"google.golang.org/protobuf/proto"
 	"sort"
 	"strings"
@@ -232,7 +233,7 @@ func (r *runner) run() {
 
 func isRequestOp(op string) bool {
 	switch op {
-	case "close", "rst", "stall", "resume", "wait", "connect", "raw", "silence", "ws_ping", "midframe_close", "offence":
+	case "close", "rst", "stall", "resume", "wait", "connect", "raw", "silence", "ws_ping", "midframe_close", "offence", "die":
 		return false
 	}
 	return true
@@ -246,6 +247,7 @@ func (r *runner) client(i int) *Client {
 		return c
 	}
 	c := r.w.Connect(ConnectOpts{Label: fmt.Sprintf("c%d", i), ClientID: fmt.Sprintf("client-%d", i)})
+	c.ridBase = i + 1
 	r.clients[i] = c
 	r.quiesce()
 	if c.Status != 101 {
@@ -349,6 +351,10 @@ func (r *runner) runSeq(st *Step) {
 		r.compare(st, c, out)
 		r.checkEnded(c, "client "+st.Op)
 		r.checkState(out)
+		return
+	}
+	if st.Op == "die" {
+		r.die(st, c)
 		return
 	}
 	if !isRequestOp(st.Op) {
@@ -1103,4 +1109,55 @@ func (r *runner) finalState() string {
 	}
 	sort.Strings(parts)
 	return strings.Join(parts, " | ")
+}
+
+// die: the connection commits a protocol error (or sends a close frame). If the server ends it,
+// the departure must look exactly like any other (C06: "for any reason"); if it does not, the
+// connection must still be served.
+func (r *runner) die(st *Step, c *Client) {
+	r.noteS0(st)
+	r.markAll()
+	mc := r.m.conn(st.Conn)
+	joined := mc.Session != nil
+	ts := fixedTS
+	join := mustMarshal(&hagallpb.ParticipantJoinRequest{Type: hagallpb.MsgType_MSG_TYPE_PARTICIPANT_JOIN_REQUEST, Timestamp: ts, RequestId: 5})
+	switch st.Variant {
+	case "unmasked":
+		c.SendRaw(encodeFrame(opBin, true, join, nil, -1))
+	case "text":
+		c.SendRaw(encodeFrame(opText, true, join, c.maskKey(), -1))
+	case "no_timestamp":
+		c.SendPayload(mustMarshal(&hagallpb.Request{Type: hagallpb.MsgType_MSG_TYPE_PING_REQUEST, RequestId: 5}))
+	case "bad_body":
+		c.SendPayload(append(mustMarshal(&hagallpb.Msg{Type: hagallpb.MsgType_MSG_TYPE_PARTICIPANT_JOIN_REQUEST, Timestamp: ts}), 0x1a, 0x02, 0xff, 0xfe))
+	case "empty_receipt":
+		c.SendPayload(mustMarshal(&hagallpb.ReceiptRequest{Type: hagallpb.MsgType_MSG_TYPE_RECEIPT_REQUEST, Timestamp: ts}))
+	case "not_protobuf":
+		c.SendPayload([]byte{0xff, 0xff, 0xff, 0xff, 0x0f})
+	default: // close_frame
+		c.SendRaw(encodeFrame(opClose, true, []byte{3, 232}, c.maskKey(), -1))
+	}
+	r.w.sim.Stats["fault.protocol_error_"+st.Variant]++
+	r.quiesce()
+	if !c.Ended() {
+		if !r.responsive(c) && !c.Ended() {
+			r.v("C08", "handler-not-returned", "after %s the connection %s is neither ended nor served", st.Variant, c.Label)
+		}
+		r.res.Triggers["die_survived:"+st.Variant]++
+		if !c.Ended() {
+			return
+		}
+	}
+	out := r.m.Depart(st.Conn)
+	out.Kind = "depart"
+	if joined {
+		r.res.Triggers["departure"]++
+		r.res.Triggers["departure_by_protocol_error"]++
+	}
+	// what the offender itself was sent before the end (an error answer, a close frame) is not
+	// constrained by C06
+	out.StateOnly = true
+	r.compare(st, c, out)
+	r.checkEnded(c, "protocol error "+st.Variant)
+	r.checkState(out)
 }
